@@ -280,9 +280,13 @@ class GroupedRecord(Record):
     def _asdict(self, fields=None, exclude=None):
         exclude = exclude or []
         keys = self.fieldname_to_record.keys()
+        # read through the member that owns the field: a member field called like one of the group's own
+        # attributes (name, records, ...) must not return the group's attribute
         if fields:
-            return OrderedDict((k, getattr(self, k)) for k in fields if k in keys and k not in exclude)
-        return OrderedDict((k, getattr(self, k)) for k in keys if k not in exclude)
+            return OrderedDict(
+                (k, getattr(self.fieldname_to_record[k], k)) for k in fields if k in keys and k not in exclude
+            )
+        return OrderedDict((k, getattr(self.fieldname_to_record[k], k)) for k in keys if k not in exclude)
 
     def __repr__(self):
         return "<{} {}>".format(self.name, self.records)
